@@ -947,6 +947,8 @@ def run(ctx):
         if bf is not None and bs is not None:
             ctx.ob("SIB-1", f"{fcls} / {scls}: the same propagation-intermediates builder serves both", bf.qualname == bs.qualname,
                    f"{fcls} -> {bf.qualname}; {scls} -> {bs.qualname}", bf)
+            from ..rules import common as _common
+            _common.per_spin_one_body(ctx, P + fcls, bf)
         frun, fstep, fres = analyse_class(ctx, P + fcls, True)
         srun, sstep, sres = analyse_class(ctx, P + scls, False)
         # PAIR-2 inside the fast blocks
